@@ -216,7 +216,7 @@ pub fn property() -> Property {
                 name: "long_chain",
                 driver: Driver::Custom { run: long_chain_run },
                 check: crate::chainlib::long_chain_check,
-                configs: Configs::ReleaseOnly,
+                configs: Configs::Both,
                 required: &["long_chain"],
                 regressions: &[],
                 exhaustive: false,
